@@ -64,8 +64,18 @@ def c19(tier, rng):
         if r.chance(1, 5):
             src = src.replace(';', '', 1) if r.chance(1, 2) else src + '\n)'
         cli.append(CliCase('random', ['s.bn'], {'s.bn': src.encode()}, b'3\n4\n', 's.bn'))
+    # size-only scripts (see vlib/scale.py) through the executable: as they are, and followed by a runtime error
+    from .scale import scale_programs
+    sc = scale_programs(tier)
+    for name, src in sc:
+        if name.startswith(('iterations', 'long-loop')) or platform_sensitive(src):
+            continue     # pow / sin / cos / tan are platform parameters of the model: their last digit is not compared here
+        cli.append(CliCase('scale-script', ['s.bn'], {'s.bn': src.encode()}, b'', 's.bn', note=name))
+        if name.startswith('nested'):
+            cli.append(CliCase('scale-script', ['s.bn'], {'s.bn': (src + f'{P} "reached";\n{P} nope;\n{P} "not reached";\n').encode()}, b'', 's.bn', note=name + '+runtime-error'))
+            cli.append(CliCase('scale-script', ['s.bn'], {'s.bn': (f'{P} "first";\n' + src + '@\n').encode()}, b'', 's.bn', note=name + '+lexical-error'))
     rule = (f'{len(names)} script names (every extension shape, directories, missing), 7 argument counts; {len(bodies)} outcome classes (clean, lexical / syntax / runtime error first, middle, last, in a loop, lenient) x 0..3 ইনপুট calls with and without prompt x '
-            f'{len(stdins)} stdin contents (0..4 lines, with/without final newline, CRLF, padded, Unicode blanks); ইনপুট misuse; odd script bytes; {n} random programs — all through the real executable, compared with the model on stdout, stderr and status; '
+            f'{len(stdins)} stdin contents (0..4 lines, with/without final newline, CRLF, padded, Unicode blanks); ইনপুট misuse; odd script bytes; {n} random programs; {len(sc)} size-only scripts (deep nesting, long lists, many names), also followed by a runtime / lexical error — all through the real executable, compared with the model on stdout, stderr and status; '
             'on the implementation alone: status 0 iff stderr empty, 65/70 exclusive, stdout silent on 64/65. Non-trivial = every run.')
     return {'cli': cli, 'cases': [], 'rule': rule, 'exhaustive': False, 'cli_oracles': [cli_oracle_c19]}
 
@@ -113,11 +123,22 @@ def c20(tier, rng):
         lines = [r.choice(pool[:-1]) for _ in range(3 + r.below(25))]
         pr = r.choice(probes)
         cli.append(CliCase('session-random', [], {}, ('\n'.join(lines + [pr]) + '\n').encode(), None, note=(len(lines) + 1, pr)))
+    # long histories of failure: thousands of failing lines, and lines that fail thousands of calls deep; whatever a failed
+    # line leaves behind (a counter, a flag, a half-unwound stack) has had every chance to add up before the probe
+    deep = lambda k: f'{FUN} d(n) {{ {IF} (n == 0) {{ {RET} {LEN}(5); }} {RET} d(n - 1); }} d({k});'
+    deepdiv = lambda k: f'{FUN} e(n) {{ {IF} (n == 0) {{ {RET} nope; }} {RET} 1 + e(n - 1); }} e({k});'
+    hist = [[f'{LEN}(5);'] * 3000, ['nope;'] * 3000, [f'{FUN} q() {{ {RET} {LEN}(5); }} q();'] * 6000, ['1 +;'] * 3000, ['@'] * 3000,
+            [deep(4000)] * 3, [deepdiv(3500)] * 4, [deep(12000)], [deep(40000)], [deep(700)] * 20, [deep(100), 'nope;', '@', '1 +;'] * 60]
+    if tier == 'thorough':
+        hist += [[f'{LEN}(5);'] * 40000, [deep(2000)] * 40, [deep(100000)], [deepdiv(9000)] * 8, [f'{MAX}();'] * 20000]
+    for hl in hist:
+        for pr in (probes if tier == 'thorough' else probes[:2]):
+            cli.append(CliCase('impl-only-session', [], {}, ('\n'.join(hl + [pr]) + '\n').encode(), None, note=(len(hl) + 1, pr)))
     # the response to each probe as the first line of a fresh session
     for pr in probes + ['1 + 1;']:
         cli.append(CliCase('fresh-probe', [], {}, (pr + '\n').encode(), None, note=pr))
     rule = (f'every session of <= {L} lines over a pool of {len(pool) - 1} representative lines (statements, bare expressions of every kind, lexical / syntax / runtime errors, assignments to built-in names, stray signals, blank and comment lines) '
-            f'followed by a probe line that uses only literals and built-ins; {m} random sessions of 4..28 lines; a 70 000-character line; missing final newline, CRLF, empty input. Compared with the model (stdout split at the prompts, stderr, status 0); '
+            f'followed by a probe line that uses only literals and built-ins; {m} random sessions of 4..28 lines; {len(hist)} long histories of failure (thousands of failing lines, lines failing up to {100000 if tier == "thorough" else 40000} calls deep; implementation alone) before each probe; a 70 000-character line; missing final newline, CRLF, empty input. Compared with the model (stdout split at the prompts, stderr, status 0); '
             'on the implementation alone: the probe answers exactly as in a fresh session. Non-trivial = every session.')
     return {'cli': cli, 'cases': [], 'rule': rule, 'exhaustive': True, 'cli_oracles': [cli_oracle_c20], 'cli_timeout': 20}
 
@@ -131,7 +152,7 @@ def cli_oracle_c20(clis):
     for c in clis:
         if c.status != 0 and not c.timed_out:
             bad.append((c, f'the session ended with status {c.status}')); continue
-        if c.label in ('session', 'session-random') and c.note:
+        if c.label in ('session', 'session-random', 'impl-only-session') and c.note:
             nlines, pr = c.note
             parts = c.out.split(b'>> ')
             # one prompt per line plus the final one
